@@ -1002,6 +1002,61 @@ theorem display_by_name_counterexample :
         [⟨true, [some 1, some 2, some 17]⟩, ⟨true, [some 5, none, some 10]⟩] 10 = [some 5, some 4, some 17] := by
   decide
 
+/-! ### Results handed out, edited, asked for again -/
+
+/-- A function that does not keep its result, or whose returned array is always made by the helper call, answers every
+request of every session -- whatever the caller did to the arrays it was handed before -- with what a single call
+computes. -/
+theorem session_answers_are_computed {ρ β : Type} [DecidableEq ρ] (kept fresh : Bool) (compute : ρ → β)
+    (h : kept = false ∨ fresh = true) (evs : List (Event ρ β)) :
+    ∀ memo : Option (ρ × β), (fresh = true ∨ memo = none) →
+      runSession kept fresh compute memo evs = (requestsOf evs).map compute := by
+  induction evs with
+  | nil => intro memo _; rfl
+  | cons ev rest ih =>
+    intro memo hm
+    cases ev with
+    | call req =>
+      have hans : (sessionCall kept fresh compute memo req).1 = compute req := by
+        rcases hm with hf | hn
+        · cases memo with
+          | none => rfl
+          | some p => simp [sessionCall, hf]
+        · subst hn; rfl
+      have hnext : fresh = true ∨ (sessionCall kept fresh compute memo req).2 = none := by
+        rcases hm with hf | hn
+        · exact Or.inl hf
+        · rcases h with hk | hf
+          · right; subst hn; simp [sessionCall, hk]
+          · exact Or.inl hf
+      simp only [runSession, requestsOf, List.map_cons, hans, ih _ hnext]
+    | edit e =>
+      have hnext : fresh = true ∨ (memo.map fun p => (p.1, e p.2)) = none := by
+        rcases hm with hf | hn
+        · exact Or.inl hf
+        · right; subst hn; rfl
+      simp only [runSession, requestsOf, ih _ hnext]
+
+/-- **Column collection gives result[i][j] = rows[j][columns[i]] on every call**, not only on the first: in every session
+on a frame (requests through `collect` or `frame[...]`, the caller editing in place the arrays it was handed, in any
+order) each answer is `publicCollect` of that request alone -- which `public_collect_spec` equates with the definition.
+Holds because the `DataFrame.collect` of the working tree stores no result (`entryKeeps`: `Gen.CallSites.resultKept = false`
+and `__getitem__` is one call of it) or returns only arrays made by the helper call (`entryFresh`:
+`Gen.CallSites.resultFresh` and `getitemDirect`); a memo of the answer in either entry point makes the `decide` below fail. -/
+theorem public_collect_keeps_no_result (names : List String) (rows : List (RowObj α))
+    (evs : List (Event Request (PubOutcome α))) [DecidableEq α] :
+    runSession entryKeeps entryFresh (answerOf names rows) none evs
+      = (requestsOf evs).map (answerOf names rows) :=
+  session_answers_are_computed _ _ _ (by decide) evs none (Or.inr rfl)
+
+/-- What the two flags guard against: a function that keeps the array it hands out and answers the repeated request with
+it returns the caller's edit, not the column (request 5 computes 5; the caller adds one to its result; asked again: 6). -/
+theorem kept_result_counterexample :
+    runSession true false (fun r : Nat => r) none [.call 5, .edit (· + 1), .call 5] = [5, 6]
+    ∧ runSession true true (fun r : Nat => r) none [.call 5, .edit (· + 1), .call 5] = [5, 5]
+    ∧ runSession false false (fun r : Nat => r) none [.call 5, .edit (· + 1), .call 5] = [5, 5] := by
+  decide
+
 /-- Non-vacuity of the call-site theorems. -/
 example : publicCollect ["a", "b"] [⟨true, [1, 2]⟩, ⟨true, [3, 4]⟩, ⟨true, [5, 6]⟩] [.name "b", .idx 0] false (some 0)
     = (.many [[], []] : PubOutcome Nat) ∧
